@@ -236,6 +236,36 @@ def sequential_events(rnd: random.Random, q: bool) -> list:
                             "pure": [ord(ch) for ch in want[i]], "same_name_cultures": True})
         except Exception as e:  # noqa: BLE001
             evs.append({"op": "fmt", "culture": "en-US pair", "text": [], "pure": [0], "exc": type(e).__name__})
+    # 6b. process-wide culture data: the same (culture, pattern, date) triples formatted here in one order and in a fresh interpreter
+    #     in the reverse order give the same texts (era names, month and day names, expanded standard patterns are all cached lazily)
+    import json as _json
+    import os as _os
+    import subprocess as _sp
+    import sys as _sys
+
+    names_all = ["en-US", "ru-RU", "de-DE", "fr-FR", "ja-JP", "ar-EG", "th-TH", "he-IL", "es-CO", "pl-PL", "", "fa-IR"]
+    triples = [[cn, pt, yy, mm, dd] for cn in rnd.sample(names_all, 8) for pt in ("yyyy g", "d MMMM yyyy gg", "D", "ddd d MMM")
+               for (yy, mm, dd) in ((1987, 3, 5), (-44, 3, 15))]
+    rnd.shuffle(triples)
+    here = []
+    for cn, pt, yy, mm, dd in triples:
+        try:
+            cu = CultureInfo.read_only(CultureInfo(cn)) if cn else CultureInfo.invariant_culture
+            here.append([ord(ch) for ch in LocalDatePattern.create(pt, cu).format(LocalDate(yy, mm, dd))])
+        except Exception as e:  # noqa: BLE001
+            here.append("exc:" + type(e).__name__)
+    try:
+        proc = _sp.run([_sys.executable, "-m", "harness.drivers.fresh_format"], input=_json.dumps(list(reversed(triples))), capture_output=True, text=True,
+                       timeout=300, env=dict(_os.environ))
+        there = list(reversed(_json.loads(proc.stdout)))
+    except Exception:  # noqa: BLE001 - no second interpreter: nothing to compare with
+        there = None
+    if there is not None and len(there) == len(here):
+        for (cn, pt, yy, mm, dd), a, b in zip(triples, here, there):
+            if isinstance(a, str) or isinstance(b, str):
+                evs.append({"op": "fmt", "culture": cn + " " + pt, "text": [0] if a != b else [1], "pure": [1], "fresh_process": True})
+            else:
+                evs.append({"op": "fmt", "culture": cn + " " + pt, "text": a, "pure": b, "fresh_process": True})
     # 7. a provider over a source that answers an alias with the canonical zone (the source contract allows it): the zone
     #    object served for an id is still the same one on every lookup, in any order of ids
     class AliasSource:
